@@ -154,8 +154,35 @@ func cmdCheck(args []string) int {
 		}
 	}
 	var lemmaNames []string
+	// lemmas used (transitively) by the selected functions and lemmas are proved in the same run
+	usedLemma := map[string]bool{}
+	var markUsed func(n string)
+	markUsed = func(n string) {
+		if usedLemma[n] {
+			return
+		}
+		usedLemma[n] = true
+		if lm, ok := P.lemmas[n]; ok {
+			for _, u := range lm.Uses {
+				markUsed(u)
+			}
+		}
+	}
+	for _, k := range sortedKeys(P.contracts) {
+		fc := P.contracts[k]
+		if *prop == "" || contains(fc.Props, *prop) {
+			for _, u := range fc.Uses {
+				markUsed(u)
+			}
+		}
+	}
 	for _, lm := range P.lemmaList {
-		if *prop != "" && !contains(lm.Props, *prop) {
+		if *prop == "" || contains(lm.Props, *prop) {
+			markUsed(lm.Name)
+		}
+	}
+	for _, lm := range P.lemmaList {
+		if !usedLemma[lm.Name] {
 			continue
 		}
 		if *only != "" && "lemma:"+lm.Name != *only {
